@@ -33,6 +33,7 @@ CONSTANTS
   LeafVals <- MC_LeafVals
   UnOps <- MC_UnOps
   BinOps <- MC_BinOps
+  CtorShapes <- MC_CtorShapes
 VIEW View
 CONSTRAINT Bounded
 CHECK_DEADLOCK FALSE
@@ -146,6 +147,7 @@ CONSTANTS
   LeafVals <- MC_LeafVals
   UnOps <- MC_UnOps
   BinOps <- MC_BinOps
+  CtorShapes <- MC_CtorShapes
 VIEW View
 CONSTRAINT Bounded
 INVARIANT C01_Total
